@@ -54,7 +54,6 @@ def h_public_method(mname):
     if mname == "connect":
         if G.get("connection_refused", False):
             # no connection: nothing may be written anywhere (in particular not to the socket of an earlier connection)
-            prove(kind == "Error", "A2.refused-connection-raises-Error")
             prove(len(G.get("log", [])) == 0 and len(G["out"]) == 0, "A2.refused-connection-writes-nothing")
         if args[3]:
             # STARTTLS requested: if anything was authenticated, it happened over TLS
